@@ -170,8 +170,8 @@ class G:
             v = {"fill": r.choice(["red", "#fc0", "#12ab34", "rgb(1,2,3)", "rgb(10%, 20%, 30%)", "none", "currentColor"] + (["url(#grad0)"] if "grad0" in self.defined else [])),
                  "stroke": r.choice(["blue", "none", "#000"]), "stroke-width": self.length(), "opacity": r.choice(["0.5", ".25", "1"]),
                  "fill-opacity": r.choice(["0.5", "1e-1"]), "stroke-dasharray": r.choice(["5,5", "1 2 3", "none", "2.5, 1"]),
-                 "font-size": self.length(), "font-family": r.choice(["serif", "'DejaVu Sans', Arial", "Helvetica Neue"]),
-                 "style": r.choice(["fill:red;stroke:blue", "fill: #abc; opacity: .5", "font: 12px serif"]), "class": r.choice(["a", "a b", "big-1"]),
+                 "font-size": self.length(), "font-family": r.choice(["serif", "'DejaVu Sans', Arial", "Helvetica Neue", '"Times New Roman", serif', '"Fira Code"']),
+                 "style": r.choice(["fill:red;stroke:blue", "fill: #abc; opacity: .5", "font: 12px serif", 'font-family: "Fira Sans"; fill: red']), "class": r.choice(["a", "a b", "big-1"]),
                  "stroke-linecap": "round", "visibility": "hidden", "display": "inline", "fill-rule": "evenodd", "transform": None,
                  "clip-path": "url(#clip0)", "filter": "url(#filt0)", "marker-end": "url(#mark0)"}[k]
             if k == "transform":
